@@ -114,6 +114,13 @@ Theorem C06_http_accept_postconditions :
 Proof. exact accept_postconditions. Qed.
 Print Assumptions C06_http_accept_postconditions.
 
+(* Params.RawPath / RawQuery of an accepted request are the two sides of the first '?' *)
+Theorem C06_http_params_raw : forall path query q,
+    no_qmark path = true -> parse_url_data (path ++ 63 :: query) = inr q ->
+    q_path q = path /\ q_query q = query.
+Proof. exact params_raw. Qed.
+Print Assumptions C06_http_params_raw.
+
 (* scrape: the infohashes come back in order of appearance, whatever the
    escaping and the other parameters, truncated to the configured maximum *)
 Theorem C06_http_scrape_roundtrip : forall o path (sps : list sparam),
